@@ -3,7 +3,7 @@ import re
 CONFIG = dict(
     bin="c11",
     drv="drv_c11",
-    lean_modules=["MahfModel.Props.C11"],
+    lean_modules=["MahfModel.Props.C11", "MahfModel.Props.C11Range"],
     namespaces=["MahfModel.Props.C11"],
     shrink_lists=["pop", "objs"],
     level="proof",
@@ -18,10 +18,11 @@ CONFIG = dict(
           "(2) DECurrentToBest on populations with duplicated individuals; (3) SUS with scripted draws at the edges of [0,1) "
           "(Random::with_rng); (4) the public helpers proportional_weights / reverse_rank / objective_bounds compared "
           "directly on random objective lists; (5) selection pressure: 3 members with distinct objectives, 6000 draws per "
-          "fitness-based operator, 5-sigma ordering test; (5b) an 'extreme' stream (finite objectives/offsets around 1e308 whose "
-          "weight arithmetic overflows to inf/NaN) on which only the model's prediction is compared — for RouletteWheel / SUS / IWO, whose "
-          "weight arithmetic overflows there, any frame-keeping outcome agrees (Err/panic with the stack untouched, or one pushed "
-          "population of source members in the requested number), the comparison-only operators are compared exactly; "
+          "fitness-based operator, 5-sigma ordering test; (5b) an 'extreme' stream: inputs on which the weight arithmetic of RouletteWheel / SUS / IWO can overflow to inf/NaN "
+          "or underflow to 0 (all objectives finite and len*((max-min)+offset) not below 1e300, or a spread max-min / an offset that is "
+          "positive but below 1e-290, or an offset beyond 1e150) — outside the exact-arithmetic theorems, only the model's prediction is "
+          "compared there, and any frame-keeping outcome agrees (Err/panic with the stack untouched, or one pushed population of source "
+          "members in the requested number); every OTHER operator only compares objective values and is judged by O on the whole range; "
           "(6) a 'malformed' stream (empty stack, unevaluated members under an operator that selects by fitness, "
           "negative/NaN offset, base outside [eps,1), y outside {1,2}) on which only the model's predicted Err/panic is "
           "compared; on a population with an unevaluated member a fitness-based operator may panic or not (agreement: the code "
@@ -31,6 +32,15 @@ CONFIG = dict(
           "(8) populations of 12..40 members with ties, counts 0, 1, len-1, len, len+1, 3*len, tournament sizes up to len+1, stacks of "
           "height 1..4, every operator. The member standing in the 'best' slot of DEBest / DECurrentToBest is read off the output "
           "(any member of minimal objective is legal). -0.0 is in the objective grids. "
+          "(9) populations at the extremes of the objective range for EVERY operator (14 operators x 12 patterns x 3 sizes x 2 entry points "
+          "systematically, plus 1500 quick / 12000 thorough random ones, sizes 0..8 and 12..31): all members +inf, all members equal "
+          "(0, -0, +-1, +-f64::MAX, MIN_POSITIVE, +-5e-324, 1e6), a single finite value among +inf, a single +inf among finite values, "
+          "+-f64::MAX mixed, -0.0/+0.0 mixed, f64::MAX next to +inf, -f64::MAX next to +inf, subnormals, adjacent floats (near ties), one "
+          "member one ulp away from a plateau; the documented-error clause is judged exactly there (an Err is a violation unless the operator "
+          "documents that input — too few individuals, not exactly one, an infinite objective for RouletteWheel / SUS / IWO — or it is one of the "
+          "corners the statement leaves open: sampling from an empty population, an empty tournament, all weights zero). "
+          "(9b) a second entry point: the operator built with `from_params` and `Selection::select` called directly on the slice "
+          "(sites `<Op>::select`), on stream 9 and on the ordinary grids. "
           "A case is non-trivial if it is not in the malformed stream and its population / objective list has "
           "at least 2 members; distinct = distinct input string."),
     nontrivial=lambda inp: "malformed" not in inp and (inp.count("(pop (") >= 1 and inp.split("(pop", 2)[1].count("(") >= 2
@@ -42,9 +52,11 @@ CONFIG = dict(
         "Vec/iterator primitives (iter, flat_map, filter, repeat/take, min_by_key = first minimum (tournament rounds; for the DE 'best' "
         "any minimum is accepted), itertools sorted_by_key = stable, group_by on consecutive equal keys) represented by their list semantics",
         "population stack = plain list (refinement of Populations proved in C04)",
-        "Lean `Float` = IEEE binary64 with the same +,-,*,/,floor as Rust f64 (used by the compiled driver only)"],
+        "Lean `Float` = IEEE binary64 with the same +,-,*,/,floor as Rust f64 (used by the compiled driver only)",
+        "f64 without NaN under `<` / `<=` (SingleObjective: Ord through partial_cmp) is a total preorder — the carrier assumption of Props/C11Range.lean"],
     assumptions=["objective values are never NaN (SingleObjective::try_from, C09)",
-                 "theorems are in exact arithmetic (ordered field): rounding, overflow to inf and x/0 = inf are outside them; "
+                 "theorems about weights are in exact arithmetic (ordered field): rounding, overflow to inf, underflow to 0 and x/0 = inf are outside them "
+                 "(the comparison-only operators are also stated over a total preorder, which has no such restriction); "
                  "the compiled Float model is compared bit-for-bit with the code instead",
                  "harness built with debug assertions / overflow checks (dev profile)"],
     timeout_quick=600,
@@ -65,21 +77,35 @@ CONFIG.update(
                 "de_current_to_best_blocks: [current, best, 2y-1 distinct others]) where 'best' is ANY member of minimal objective (witness "
                 "position, BestIdx) and the code's first minimum is one of the legal choices (code_best_is_legal); All returns the population "
                 "itself and None nothing (all_none_exact); the six operators that never read an objective behave as documented on EVERY "
-                "population, unevaluated ones included, without any side condition (documented_errors_no_fitness); IWO copies each member between min and max times, "
+                "population, unevaluated ones included, without any side condition (documented_errors_no_fitness); the operators that only COMPARE "
+                "objective values (Tournament, LinearRank, DEBest, DECurrentToBest, and f::best behind the two DE selections) are additionally "
+                "treated over an arbitrary TOTAL PREORDER with arbitrary arithmetic (Props/C11Range.lean: the carrier may have a greatest element = "
+                "+inf, values of any magnitude, and distinct elements that compare equal = -0.0/+0.0): best never panics, answers None exactly on "
+                "the empty population and returns a member of minimal objective (best_any_range), on a plateau (all +inf, all equal) every member is "
+                "a legal best (plateau_every_member_is_best), Err is returned on too few individuals and on NO other input and nothing panics "
+                "(documented_errors_any_range), the DE blocks have the documented content (de_best_blocks_any_range, "
+                "de_current_to_best_blocks_any_range, code_best_is_legal_any_range) and a whole-population tournament returns a minimal member "
+                "(tournament_whole_population_is_best_any_range); IWO copies each member between min and max times, "
                 "antitone in the objective. Partial forms + counterexample theorems document the two helper guarantees that "
                 "the code does not meet (side findings below). The model is tied to /repo by executing the real components and comparing with the compiled Float "
                 "model under the recovered witness (K), evaluating the property predicate on the implementation's output (O; for SUS "
                 "additionally: a worse member never gets more than two copies more than a better one — the integer consequence of "
                 "sus_copies_proportional, one boundary point on either side; for All and IWO the multiset of copies, not their order), and "
-                "a 5-sigma frequency test for selection pressure."),
+                "a 5-sigma frequency test for selection pressure. O judges every operator on the whole range of objective values "
+                "(-f64::MAX..f64::MAX, +inf, signed zeros, subnormals; all-+inf and all-equal populations included) through both entry points "
+                "(`execute` and a direct `Selection::select`), except RouletteWheel / SUS / IWO where their weight arithmetic can overflow or underflow."),
     level_note=("Trusted: Lean kernel; contracts of rand's sampling primitives; list semantics of iterator adaptors; harness + "
                 "driver parsing/printing. partial: the distributions of the samplers (only the 5-sigma ordering test looks at "
                 "frequencies), floating-point rounding/overflow in the weight arithmetic (theorems are exact arithmetic; the "
-                "Float model is compared with the code on the generated cases only), WeightedIndex internals; on the 'extreme' stream RouletteWheel panics ('Uniform::new: range overflow') when the weight "
+                "Float model is compared with the code on the generated cases only), WeightedIndex internals; ExponentialRank on +inf / huge "
+                "objectives is covered by O and K only (its weights are field arithmetic on the base, so it is not in the total-preorder theorems); "
+                "on the 'extreme' stream (outside O) SUS selects only the first member when the objectives differ by a subnormal amount, e.g. "
+                "objectives -0.0, -5e-324 with offset 0 and 7 points: total/7 underflows to 0 — a rounding effect the exact-arithmetic statement does "
+                "not cover, predicted by the model; there RouletteWheel also panics ('Uniform::new: range overflow') when the weight "
                 "total overflows (e.g. objectives 0, 0, 5e307, 5e307, 1, -1 with offset 1) — predicted by the model, not judged, and not pinned "
                 "either (where an overflow surfaces depends on how the same weight is written). Not pinned down on purpose: which of several "
                 "equally good members is 'best' in the DE selections, the order of the copies in O (K still compares it), whether a "
-                "fitness-based operator panics on an unevaluated member. The step from sus_copies_proportional to the integer bound "
+                "fitness-based operator panics on an unevaluated member, the sign of a zero returned by objective_bounds. The step from sus_copies_proportional to the integer bound "
                 "'at most two copies more' used by O (contiguity of equal positions in a sorted list) is argued in the docstring, not "
                 "proved. Still pinned by K only: Err-versus-Ok in corners the property leaves open (e.g. LinearRank with n = 0 on an empty "
                 "population), the order of the copies of All / IWO, the rounding direction of the IWO seed count. Side findings "
